@@ -44,6 +44,9 @@ def run_case(prop, case, timeout_s=30.0, keep_log=False):
         signal.setitimer(signal.ITIMER_REAL, 0)
         res.violation = Violation('foreign_activity', 'foreign_design_misbehaves',
                                   {'what': str(e)}, ['foreign'])
+    except (common.HarnessError, KeyboardInterrupt, MemoryError):
+        signal.setitimer(signal.ITIMER_REAL, 0)
+        raise
     except RunTimeout:
         signal.setitimer(signal.ITIMER_REAL, 0)
         hang = getattr(prop, 'HANG_IS_VIOLATION', False)
@@ -52,6 +55,23 @@ def run_case(prop, case, timeout_s=30.0, keep_log=False):
                                       tags=getattr(prop, 'hang_tags', lambda c: [])(case))
         else:
             raise common.HarnessError('run timed out after %ss' % timeout_s)
+    except Exception as e:
+        # Outside its explicit fault points (which catch what they expect) a property module
+        # only makes legal calls. An exception whose innermost frame is PyRTL's own code is
+        # therefore PyRTL refusing or crashing on a legal call; anything else is ours.
+        signal.setitimer(signal.ITIMER_REAL, 0)
+        tb = traceback.extract_tb(e.__traceback__)
+        inner = tb[-1] if tb else None
+        pyrtl_dir = os.path.join(os.path.realpath(common.REPO_DIR), 'pyrtl') + os.sep
+        if inner is None or not os.path.realpath(inner.filename).startswith(pyrtl_dir):
+            raise
+        ours = [f for f in tb if os.sep + 'verifsim' + os.sep in f.filename]
+        res.violation = Violation('legal_call', 'exception_inside_pyrtl',
+                                  {'exc': type(e).__name__, 'msg': str(e)[:300],
+                                   'where': '%s:%d' % (os.path.basename(inner.filename), inner.lineno),
+                                   'called_from': ('%s:%d' % (os.path.basename(ours[-1].filename),
+                                                              ours[-1].lineno)) if ours else None},
+                                  ['exc:' + type(e).__name__])
     finally:
         try:
             world.teardown_world()
